@@ -1,0 +1,389 @@
+//go:build verif
+// +build verif
+
+// Verification hooks for C09 (reader robustness, truthful diagnostics) and
+// C20 (parameters and includes).  Add-only: every function calls the
+// package's unexported code unchanged.
+
+package cmd
+
+import (
+	"bytes"
+	"context"
+	"fmt"
+	"io/ioutil"
+	"os"
+	"path/filepath"
+	"regexp"
+	"runtime/debug"
+	"strconv"
+	"strings"
+
+	"github.com/cockroachdb/errors"
+)
+
+// VerifPos is a position named by a diagnostic, or held by the reader.
+type VerifPos struct {
+	File string
+	Line int
+}
+
+// VerifStackEntry is one subreader of the reader stack.
+type VerifStackEntry struct {
+	File       string
+	Lineno     int // next line to read
+	NLines     int // len(lines)
+	IncludedAt int
+}
+
+// VerifC09Result is what VerifC09Parse observed.
+type VerifC09Result struct {
+	Phase     string // "defines" | "open" | "parse" | "compile" | "ok": where it ended
+	Printed   string // printCfg (no comments, no version) when Phase == "ok"
+	Err       string // rendered diagnostic (RenderError), root replaced by <tmp>
+	ErrShort  string // err.Error(), root replaced by <tmp>
+	Panic     string
+	PanicAt   string   // innermost frames of the stack at the panic
+	HasPos    bool     // the diagnostic starts with "<file>:<line>:"
+	Pos       VerifPos // that position, file relative to the root ("/m.cfg")
+	Quoted    string   // the line shown after ">" in "while parsing:"
+	HasQuoted bool
+	HasChain  bool              // the diagnostic has an "in file included from:" detail
+	Chain     []VerifPos        // its entries, nearest includer first
+	ChainBad  bool              // the detail did not parse as "<file>:<n> <- here" lines
+	Stack     []VerifStackEntry // reader stack when parseCfg returned, bottom first
+	PVars     [][2]string       // cfg.pVarNames with their values
+	Titles    []string
+	SeeAlso   []string
+	Authors   []string
+}
+
+// verifPanicFrames names the functions on the stack of a recovered panic
+// (innermost first, runtime frames left out).
+func verifPanicFrames() string {
+	var fs []string
+	for _, l := range strings.Split(string(debug.Stack()), "\n") {
+		if strings.HasPrefix(l, "\t") || strings.HasPrefix(l, "goroutine ") || l == "" {
+			continue
+		}
+		if i := strings.LastIndex(l, "("); i > 0 {
+			l = l[:i]
+		}
+		if strings.HasPrefix(l, "runtime") || strings.HasPrefix(l, "panic") || strings.Contains(l, "verifPanicFrames") {
+			continue
+		}
+		fs = append(fs, l)
+		if len(fs) >= 8 {
+			break
+		}
+	}
+	return strings.Join(fs, " < ")
+}
+
+func verifWriteTree(files map[string]string, dirs []string) (string, error) {
+	tmp, err := ioutil.TempDir("", "shk-verif-c09")
+	if err != nil {
+		return "", err
+	}
+	for _, d := range dirs {
+		if err := os.MkdirAll(filepath.Join(tmp, d), 0755); err != nil {
+			return tmp, err
+		}
+	}
+	for name, data := range files {
+		p := filepath.Join(tmp, name)
+		if err := os.MkdirAll(filepath.Dir(p), 0755); err != nil {
+			return tmp, err
+		}
+		if err := ioutil.WriteFile(p, []byte(data), 0644); err != nil {
+			return tmp, err
+		}
+	}
+	return tmp, nil
+}
+
+// verifRel renames the temporary root to /r/t and its parent to /r: the names
+// under which the checks' model of the file system knows them.
+func verifRel(s, tmp string) string {
+	s = strings.ReplaceAll(s, tmp, "/r/t")
+	if d := filepath.Dir(tmp); d != "/" && d != "." {
+		s = strings.ReplaceAll(s, d, "/r")
+	}
+	return s
+}
+
+var verifPosRe = regexp.MustCompile(`(?s)^(.+?):(\d+): `)
+var verifChainRe = regexp.MustCompile(`(?s)^(.*):(\d+) <- here$`)
+
+func verifStack(rd *reader, tmp string) []VerifStackEntry {
+	var st []VerifStackEntry
+	if rd == nil {
+		return nil
+	}
+	for _, r := range rd.readers {
+		st = append(st, VerifStackEntry{File: verifRel(r.file, tmp), Lineno: r.lineno, NLines: len(r.lines), IncludedAt: r.includedAt})
+	}
+	return st
+}
+
+// verifDecodeErr extracts what the diagnostic names.
+func verifDecodeErr(res *VerifC09Result, err error, rd *reader, tmp string) {
+	var b bytes.Buffer
+	RenderError(&b, err)
+	res.Err = strings.ReplaceAll(b.String(), tmp, "<tmp>")
+	msg := err.Error()
+	res.ErrShort = strings.ReplaceAll(msg, tmp, "<tmp>")
+	// Position prefix: prefer a file name of the reader stack (file names may
+	// hold any byte), fall back to the shortest "<x>:<digits>: " prefix.
+	found := false
+	if rd != nil {
+		for i := len(rd.readers) - 1; i >= 0 && !found; i-- {
+			f := rd.readers[i].file
+			if strings.HasPrefix(msg, f+":") {
+				rest := msg[len(f)+1:]
+				j := 0
+				for j < len(rest) && rest[j] >= '0' && rest[j] <= '9' {
+					j++
+				}
+				if j > 0 && strings.HasPrefix(rest[j:], ": ") {
+					n, _ := strconv.Atoi(rest[:j])
+					res.HasPos, res.Pos, found = true, VerifPos{verifRel(f, tmp), n}, true
+				}
+			}
+		}
+	}
+	if !found {
+		if m := verifPosRe.FindStringSubmatch(msg); m != nil {
+			n, _ := strconv.Atoi(m[2])
+			res.HasPos, res.Pos = true, VerifPos{verifRel(m[1], tmp), n}
+		}
+	}
+	for _, d := range errors.GetAllDetails(err) {
+		if strings.HasPrefix(d, "in file included from:\n") {
+			res.HasChain = true
+			for _, l := range strings.Split(strings.TrimPrefix(d, "in file included from:\n"), "\n") {
+				m := verifChainRe.FindStringSubmatch(l)
+				if m == nil {
+					res.ChainBad = true
+					continue
+				}
+				n, _ := strconv.Atoi(m[2])
+				res.Chain = append(res.Chain, VerifPos{verifRel(m[1], tmp), n})
+			}
+		}
+		if strings.HasPrefix(d, "while parsing:\n") && res.HasPos {
+			prefix := fmt.Sprintf("%s:%-3d > ", strings.Replace(res.Pos.File, "/r/t", tmp, 1), res.Pos.Line)
+			for _, l := range strings.Split(d, "\n") {
+				if strings.HasPrefix(l, prefix) {
+					res.Quoted, res.HasQuoted = l[len(prefix):], true
+				}
+			}
+		}
+	}
+}
+
+// VerifC09Parse writes the file set to a fresh directory, parses mainFile with
+// the -D definitions and the -I directories (relative to that directory; ""
+// is the directory itself) exactly as Run does (parseDefines, newReader,
+// parseCfg, compileV2), and reports the outcome in structured form.
+func VerifC09Parse(files map[string]string, dirs []string, mainFile string, defines, includePath []string) (res VerifC09Result) {
+	tmp, terr := verifWriteTree(files, dirs)
+	defer os.RemoveAll(tmp)
+	if terr != nil {
+		// the experiment could not be set up (not an outcome of the parser)
+		res.Phase, res.Err = "setup", terr.Error()
+		return res
+	}
+	var ip []string
+	for _, p := range includePath {
+		ip = append(ip, filepath.Join(tmp, p))
+	}
+	var rd *reader
+	var cfg *config
+	defer func() {
+		if r := recover(); r != nil {
+			res.Panic = fmt.Sprintf("%v", r)
+			res.PanicAt = verifPanicFrames()
+		}
+		res.Stack = verifStack(rd, tmp)
+		if cfg != nil {
+			for _, n := range cfg.pVarNames {
+				res.PVars = append(res.PVars, [2]string{n, cfg.pVars[n]})
+			}
+			res.Titles = append([]string(nil), cfg.titleStrings...)
+			res.SeeAlso = append([]string(nil), cfg.seeAlso...)
+			res.Authors = append([]string(nil), cfg.authors...)
+		}
+		if rd != nil {
+			rd.close()
+		}
+	}()
+	ctx := context.Background()
+	cfg = newConfig()
+	cfg.defines = defines
+	cfg.includePath = ip
+	res.Phase = "defines"
+	if err := cfg.parseDefines(); err != nil {
+		verifDecodeErr(&res, err, nil, tmp)
+		return res
+	}
+	res.Phase = "open"
+	var err error
+	rd, err = newReader(ctx, mainFile, ip)
+	if err != nil {
+		rd = nil
+		verifDecodeErr(&res, err, nil, tmp)
+		res.HasPos = false
+		return res
+	}
+	res.Phase = "parse"
+	if err := cfg.parseCfg(ctx, rd); err != nil {
+		verifDecodeErr(&res, err, rd, tmp)
+		return res
+	}
+	res.Phase = "compile"
+	if err := cfg.compileV2(); err != nil {
+		verifDecodeErr(&res, err, nil, tmp)
+		res.HasPos = false
+		return res
+	}
+	var b bytes.Buffer
+	cfg.printCfg(&b, true /*skipComments*/, true /*skipVer*/, false /*annot*/)
+	res.Printed = b.String()
+	res.Phase = "ok"
+	return res
+}
+
+// VerifReadEvent is one result of reader.readLine.
+type VerifReadEvent struct {
+	Skip   bool
+	Line   string
+	File   string // pos.r.file, relative to the root
+	Lineno int    // pos.lineno
+	Chain  []VerifPos
+}
+
+// VerifC09ReadResult is what VerifC09ReadAll observed.
+type VerifC09ReadResult struct {
+	Events []VerifReadEvent
+	End    string // "stop" | "err" | "openerr" | "panic" | "runaway"
+	Err    VerifC09Result
+	Stack  []VerifStackEntry
+}
+
+// VerifC09ReadAll drives the real reader alone: newReader, then readLine
+// until it says stop or fails.  Parameters come from -D only.
+func VerifC09ReadAll(files map[string]string, dirs []string, mainFile string, defines, includePath []string, maxCalls int) (res VerifC09ReadResult) {
+	tmp, terr := verifWriteTree(files, dirs)
+	defer os.RemoveAll(tmp)
+	if terr != nil {
+		res.End, res.Err.Err = "setup", terr.Error()
+		return res
+	}
+	var ip []string
+	for _, p := range includePath {
+		ip = append(ip, filepath.Join(tmp, p))
+	}
+	var rd *reader
+	defer func() {
+		if r := recover(); r != nil {
+			res.End = "panic"
+			res.Err.Panic = fmt.Sprintf("%v", r)
+			res.Err.PanicAt = verifPanicFrames()
+		}
+		res.Stack = verifStack(rd, tmp)
+		if rd != nil {
+			rd.close()
+		}
+	}()
+	ctx := context.Background()
+	cfg := newConfig()
+	cfg.defines = defines
+	cfg.includePath = ip
+	if err := cfg.parseDefines(); err != nil {
+		res.End = "openerr"
+		verifDecodeErr(&res.Err, err, nil, tmp)
+		return res
+	}
+	var err error
+	rd, err = newReader(ctx, mainFile, ip)
+	if err != nil {
+		rd = nil
+		res.End = "openerr"
+		verifDecodeErr(&res.Err, err, nil, tmp)
+		res.Err.HasPos = false
+		return res
+	}
+	for i := 0; i < maxCalls; i++ {
+		line, p, stop, skip, err := rd.readLine(ctx, cfg)
+		if err != nil {
+			res.End = "err"
+			verifDecodeErr(&res.Err, err, rd, tmp)
+			return res
+		}
+		if stop {
+			res.End = "stop"
+			return res
+		}
+		ev := VerifReadEvent{Skip: skip, Line: line}
+		if p.r != nil {
+			ev.File, ev.Lineno = verifRel(p.r.file, tmp), p.lineno
+			for r := p.r; r.parent != nil; r = r.parent {
+				ev.Chain = append(ev.Chain, VerifPos{verifRel(r.parent.file, tmp), r.includedAt})
+			}
+		}
+		res.Events = append(res.Events, ev)
+	}
+	res.End = "runaway"
+	return res
+}
+
+// VerifC09ScriptLine gives one line to the real parseScript of a fresh
+// configuration (the `edit` splitter lives there).
+func VerifC09ScriptLine(line string) (errText string, panicText string) {
+	defer func() {
+		if r := recover(); r != nil {
+			panicText = fmt.Sprintf("%v", r)
+		}
+	}()
+	cfg := newConfig()
+	if err := cfg.parseScript(line); err != nil {
+		return err.Error(), ""
+	}
+	return "", ""
+}
+
+// VerifC20Preproc applies parseDefines to the -D definitions, parses
+// paramText (a configuration text, normally `parameter` clauses) with the real
+// parseCfg, then calls the real preprocReplace on every string of strs.
+func VerifC20Preproc(defines []string, paramText string, strs []string) (outs []string, errs []string, pvars [][2]string, parseErr string, panicText string) {
+	defer func() {
+		if r := recover(); r != nil {
+			panicText = fmt.Sprintf("%v", r)
+		}
+	}()
+	cfg := newConfig()
+	cfg.defines = defines
+	if err := cfg.parseDefines(); err != nil {
+		return nil, nil, nil, err.Error(), ""
+	}
+	if paramText != "" {
+		rd, _ := newReaderFromString("<verif>", paramText)
+		if err := cfg.parseCfg(context.Background(), rd); err != nil {
+			parseErr = err.Error()
+		}
+	}
+	for _, n := range cfg.pVarNames {
+		pvars = append(pvars, [2]string{n, cfg.pVars[n]})
+	}
+	for _, s := range strs {
+		o, err := cfg.preprocReplace(s)
+		outs = append(outs, o)
+		if err != nil {
+			errs = append(errs, err.Error())
+		} else {
+			errs = append(errs, "")
+		}
+	}
+	return outs, errs, pvars, parseErr, ""
+}
